@@ -141,6 +141,15 @@ class _Break(Exception):
 
 
 UNIT = ()
+STD_FLOAT_CONSTS = {}
+for _pre in ("std::f64::", "core::f64::", "f64::", "core::f64::<impl f64>::", "std::f64::<impl f64>::"):
+    STD_FLOAT_CONSTS[_pre + "INFINITY"] = float("inf")
+    STD_FLOAT_CONSTS[_pre + "NEG_INFINITY"] = float("-inf")
+    STD_FLOAT_CONSTS[_pre + "EPSILON"] = 2.220446049250313e-16
+    STD_FLOAT_CONSTS[_pre + "MAX"] = 1.7976931348623157e308
+    STD_FLOAT_CONSTS[_pre + "MIN"] = -1.7976931348623157e308
+    STD_FLOAT_CONSTS[_pre + "consts::PI"] = 3.141592653589793
+    STD_FLOAT_CONSTS[_pre + "consts::E"] = 2.718281828459045
 OK_PATHS = ("std::result::Result::Ok", "core::result::Result::Ok")  # norm() canonicalises prelude paths to the std:: form
 ERR_PATHS = ("std::result::Result::Err", "core::result::Result::Err")
 SOME_PATHS = ("std::option::Option::Some", "core::option::Option::Some")
@@ -557,6 +566,9 @@ class Interp:
                     return r
             return True
         if k == "PPath":
+            c = STD_FLOAT_CONSTS.get(norm(p.get("path") or ""))
+            if c is not None and isinstance(v, (int, float)) and not isinstance(v, bool):
+                return v == c
             if isinstance(v, Var):
                 if norm(v.path) == norm(p.get("path")):
                     return True
@@ -676,6 +688,9 @@ class Interp:
                 f = self.F.fns.get(n["path"])
                 if f is not None and "body" in f:
                     return self.ev(f["body"], {})
+                c = STD_FLOAT_CONSTS.get(norm(n["path"]))
+                if c is not None:
+                    return c
                 return Unknown("const " + n["path"])
             if dk == "StructCtor":
                 return Var(norm(n["path"]))
@@ -953,10 +968,24 @@ class Interp:
                 if self.bind(p, a, env) is not True:
                     return Unknown("closure param bind")
             try:
-                return self.ev(f.node["body"], env)
-            except _Return as r:
-                return r.v
+                try:
+                    return self.ev(f.node["body"], env)
+                except _Return as r:
+                    return r.v
+            finally:
+                # FnMut: writes to captured locals are visible to the defining frame and to later calls
+                for k_ in f.env:
+                    if k_ in env:
+                        f.env[k_] = env[k_]
         if isinstance(f, FnRef):
+            pn = norm(f.path)
+            if pn.endswith(("f64>::min", "f64>::max", "f64::min", "f64::max")) and len(args) == 2 and all(isinstance(a, (int, float)) and not isinstance(a, bool) for a in args):
+                a, b = float(args[0]), float(args[1])
+                if a != a:
+                    return b
+                if b != b:
+                    return a
+                return min(a, b) if pn.endswith("min") else max(a, b)
             return self.call_fn(f.path, args)
         return Unknown("apply %r" % (f,))
 
@@ -1061,6 +1090,29 @@ class Interp:
                     return Unknown("predicate not boolean: %r" % (r,))
                 res.append(r)
             return all(res) if name == "all" else any(res)
+        if name == "chain" and isinstance(recv, ListV) and len(args) == 1 and isinstance(args[0], ListV):
+            return ListV(list(recv.items) + list(args[0].items))
+        if name == "filter" and isinstance(recv, ListV) and len(args) == 1:
+            out = []
+            for x in recv.items:
+                r = self.apply(args[0], [x])
+                if not isinstance(r, bool):
+                    return Unknown("filter predicate not boolean: %r" % (r,))
+                if r:
+                    out.append(x)
+            return ListV(out)
+        if name in ("reserve", "shrink_to_fit") and isinstance(recv, ListV):
+            return UNIT
+        if name == "retain" and isinstance(recv, ListV) and len(args) == 1:
+            keep = []
+            for x in recv.items:
+                r = self.apply(args[0], [x])
+                if not isinstance(r, bool):
+                    return Unknown("retain predicate not boolean: %r" % (r,))
+                if r:
+                    keep.append(x)
+            recv.items[:] = keep
+            return UNIT
         if name == "enumerate" and isinstance(recv, ListV) and not args:
             return ListV([(i, x) for i, x in enumerate(recv.items)])
         if name in ("flat_map", "filter_map") and isinstance(recv, ListV) and len(args) == 1:
@@ -1099,6 +1151,10 @@ class Interp:
                     return r
                 rope.add(r)
             return rope
+        if name == "contains" and isinstance(recv, ListV) and len(args) == 1 and not is_unknown(args[0]):
+            return any(x == args[0] for x in recv.items)
+        if name == "get" and isinstance(recv, ListV) and len(args) == 1 and isinstance(args[0], int):
+            return Var(SOME_PATHS[0], [recv.items[args[0]]]) if 0 <= args[0] < len(recv.items) else Var(NONE_PATHS[0])
         if name == "contains" and isinstance(recv, (str, Rope)):
             s = recv if isinstance(recv, str) else (recv.text() if all(isinstance(x, str) for x in recv.pieces) else None)
             a = args[0]
@@ -1127,6 +1183,12 @@ class Interp:
             return recv == 0
         if name in ("is_nan",) and isinstance(recv, float):
             return recv != recv
+        if name == "is_infinite" and isinstance(recv, (int, float)) and not isinstance(recv, bool):
+            return abs(recv) == float("inf")
+        if name in ("is_sign_negative", "is_sign_positive") and isinstance(recv, float):
+            import math as _m
+            neg = _m.copysign(1.0, recv) < 0
+            return neg if name == "is_sign_negative" else not neg
         if name in ("is_finite",) and isinstance(recv, (int, float)):
             return recv == recv and abs(recv) != float("inf")
         if name == "unwrap_or" and isinstance(recv, Var) and len(args) == 1:
